@@ -1,4 +1,6 @@
 """C08: bounds are the tight per-dimension box for every geometry and layout mix."""
+from concurrent.futures import ThreadPoolExecutor
+
 import vlib
 
 
@@ -7,25 +9,74 @@ def pipe(ctx, verdict, cases, name="bounds"):
     viols = vlib.model_b(ctx, "BoundsObs", "Obs.cfg", obs, name="BoundsObs")
     for idx, v in viols:
         o = obs[idx]
-        verdict.add(name, v["sig"], cases[idx], dict(row=v["row"], pan=str(o.get("b", {}).get("pan", ""))[:160]))
+        verdict.add(name, v["sig"], cases[idx], dict(row=v["row"], pan=str(o.get("b", {}).get("pan", "") or o.get("pan", ""))[:160]))
     return obs
 
 
 PIPES = {"bounds": pipe}
 
+# extend: Extend histories of leaves; extgc: Extend called directly with collection trees; gc: GeometryCollection.Bounds;
+# geo: one geometry of every Go type (Bounds, Bounds.Polygon, GeoJSON bbox); set: Set / SetCoords inside a history;
+# overlap / ovpt: Overlaps and OverlapsPoint for boxes of all layouts under every layout argument
+FAMILIES = ("extend", "extgc", "gc", "geo", "set", "overlap", "ovpt")
+
+
+def tally(ctx, obs):
+    """What the recorder actually exercised (coverage bookkeeping; no verdict is taken here)."""
+    types, bbox, poly, loose = {}, dict(emitted=0, error=0, absent=0), dict(ring=0, empty=0), 0
+    for o in obs:
+        c = o.get("case", {})
+        for t in o.get("tys", []) + ([o["ty"]] if "ty" in o else []):
+            types[t] = types.get(t, 0) + 1
+        for k in ("bbox", "bbd"):
+            if k in o:
+                b = o[k]
+                bbox["emitted" if b.get("has") else "error" if b.get("err") else "absent"] += 1
+        if "poly" in o:
+            poly["ring" if o["poly"].get("fc") else "empty"] += 1
+        if c.get("fam") in ("overlap", "ovpt") and o.get("pan"):
+            loose += 1
+    ctx.coverage_extra["go_types_observed"] = types
+    ctx.coverage_extra["geojson_bbox"] = bbox
+    ctx.coverage_extra["bounds_polygon"] = poly
+    ctx.coverage_extra["overlap_calls_that_panicked (box smaller than the layout argument: unspecified)"] = loose
+    want = {"Point", "MultiPoint", "LineString", "LinearRing", "MultiLineString", "Polygon", "MultiPolygon", "GeometryCollection"}
+    if not want <= set(types):
+        raise vlib.Infra("C08: the recorder did not build every geometry type: missing %s" % sorted(want - set(types)))
+    if bbox["emitted"] == 0:
+        raise vlib.Infra("C08: no GeoJSON bbox was observed at all: the bbox rule would be vacuous")
+    if poly["ring"] == 0:
+        raise vlib.Infra("C08: no Bounds.Polygon ring was observed at all: the polygon rule would be vacuous")
+
 
 def run(ctx, verdict):
     tier = "quick" if ctx.quick else "thorough"
+    # closed-interval arithmetic of the overlap tests, proved for ALL integers (TLAPS)
+    vlib.tlapm(ctx, "BoundsProofs", ["Intervals"])
     cases = []
     ctx.coverage_extra["model_a"] = []
-    for fam in ("extend", "gc", "overlap"):
+
+    def gen(fam):
         cfg = "Bounds_%s_%s.cfg" % (fam, tier)
-        out, r = vlib.model_a(ctx, "BoundsModel", cfg, ["CASE"], workers=8)
-        cs = sorted(out["CASE"], key=vlib.digest)
-        ctx.coverage_extra["model_a"].append(dict(cfg=cfg, cases=len(cs), states=r["distinct"]))
-        cases += cs
+        out, r = vlib.model_a(ctx, "BoundsModel", cfg, ["CASE"], workers=8 if fam == "extend" else 2, name="BoundsModel-" + fam,
+                                heap="8g" if fam == "extend" else "2g")
+        return cfg, sorted(out["CASE"], key=vlib.digest), r
+
+    with ThreadPoolExecutor(max_workers=len(FAMILIES)) as ex:
+        for cfg, cs, r in ex.map(gen, FAMILIES):
+            if not cs:
+                raise vlib.Infra("C08: model A emitted no case for %s" % cfg)
+            ctx.coverage_extra["model_a"].append(dict(cfg=cfg, cases=len(cs), states=r["distinct"]))
+            cases += cs
     vlib.note_cases(ctx, cases, nontrivial=lambda c: c["fam"] != "extend" or len(c["gs"]) > 0)
-    pipe(ctx, verdict, cases)
+    obs = pipe(ctx, verdict, cases)
+    tally(ctx, obs)
     ctx.assumptions += ["ordinates are integers 0..4 (min/max only compare, magnitudes are irrelevant); no NaN (excluded by "
-                        "the property); overlap tests on boxes with min <= max in every dimension plus the canonical empty "
-                        "box of NewBounds - partially inverted finite boxes written through Set are outside 'those boxes'"]
+                        "the property); overlap tests on boxes with min <= max in every dimension, or the interval "
+                        "(+Inf,-Inf) NewBounds leaves in a dimension - partially inverted finite boxes written through Set "
+                        "are outside 'those boxes'; Set / SetCoords only with as many ordinates as the current layout has "
+                        "and min <= max",
+                        "left open on purpose: Overlaps / OverlapsPoint when a box has fewer dimensions than the layout "
+                        "argument (any outcome), by position or by name when the box only covers the argument (XYM asked "
+                        "of XYZM: either answer); Bounds.Polygon of a box with an empty dimension (no panic); a GeoJSON "
+                        "bbox that is not emitted, an encoding error, the bbox of a geometry without coordinates"]
